@@ -1,4 +1,5 @@
 import SamVerif.Generated.TsOps
+import SamVerif.Generated.StrEsc
 /-
 C04 — executable models of the two back ends on the shared value domain.
 
@@ -270,11 +271,9 @@ def utf8Decode : List Nat → List Nat
 termination_by l => l.length
 decreasing_by all_goals simp_wf <;> omega
 
-/-- the character an escape letter stands for (`string_constant_bytes`, `wasm_lowering.rs`, fix 9fd2988) -/
-def escChar (e : Nat) : Option Nat :=
-  if e = 116 then some 9 else if e = 118 then some 11 else if e = 48 then some 0
-  else if e = 98 then some 8 else if e = 102 then some 12 else if e = 110 then some 10
-  else if e = 114 then some 13 else if e = 92 then some 92 else none
+/-- the character an escape letter stands for (`string_constant_bytes`, `wasm_lowering.rs`, fix 9fd2988);
+`wasmEscTable` is regenerated from the source on every run -/
+def escChar (e : Nat) : Option Nat := wasmEscTable.lookup e
 
 /-- `string_constant_bytes`: the characters the source text of the literal denotes -/
 def wasmUnescape : Text → Text
@@ -337,18 +336,22 @@ back quotes. Escape sequences are kept (JS cooks them to the characters the spec
 prescribes); a back quote and `${` are escaped, a raw CR is written `\\r`, and `\\0` before a digit
 (an octal escape, SyntaxError in a template) is written `\\x00`. Before the fixes the content was
 pasted as is (findings C04-F2, C04-F3). -/
+def tsRewriteOf (c : Nat) (next : Option Nat) : Option (List Nat) :=
+  tsRewrites.findSome? fun (ch, guard, rep) =>
+    if ch = c ∧ (guard = none ∨ guard = next) then some rep else none
+
+/-- The rewrite table `tsRewrites` and the text `tsNulBeforeDigit` are regenerated from `lir.rs` on
+every run (`extract/c04_strings.py`). -/
 def tsEscape : Text → Text
   | [] => []
-  | 92 :: 48 :: d :: r =>
-    if isDigit d then 92 :: 120 :: 48 :: 48 :: tsEscape (d :: r) else 92 :: 48 :: tsEscape (d :: r)
-  | 92 :: n :: r => 92 :: n :: tsEscape r
   | 92 :: [] => [92]
-  | 96 :: r => 92 :: 96 :: tsEscape r
-  | 36 :: 123 :: r => 92 :: 36 :: tsEscape (123 :: r)
-  | 13 :: r => 92 :: 114 :: tsEscape r
-  | c :: r => c :: tsEscape r
-termination_by s => s.length
-decreasing_by all_goals simp_wf <;> omega
+  | 92 :: n :: r =>
+    if n = 48 ∧ (r.head?.map isDigit).getD false = true then tsNulBeforeDigit ++ tsEscape r
+    else 92 :: n :: tsEscape r
+  | c :: r =>
+    match tsRewriteOf c r.head? with
+    | some rep => rep ++ tsEscape r
+    | none => c :: tsEscape r
 
 /-- the JS string the emitted TypeScript holds for a constant with this content -/
 def tsDecode (s : Text) : Option (List Nat) := tsCook (tsEscape s)
@@ -359,8 +362,7 @@ def validEscapes : Bool → Text → Bool
   | pending, c :: rest =>
     if c = 92 then validEscapes (!pending) rest
     else if pending then
-      (c = 116 || c = 118 || c = 48 || c = 98 || c = 102 || c = 110 || c = 114 || c = 34)
-        && validEscapes false rest
+      lexEscapes.contains c && validEscapes false rest
     else validEscapes false rest
 
 /-- `lex_str_lit_opt` (`lexer.rs:317-355`): `"raw"` is lexed as exactly one string literal.
